@@ -20,12 +20,14 @@ CLAIMS = {
  'C03': dict(technique='interval analysis of Prefix over all values; symbolic path comparison of every WritePayload with the documented layout; doc-table parse',
              text='Integer layer complete: minimal class for every value of the nine integer encoders, payload type per class, prefix byte values equal the '
                   'table parsed from docs/format.md. Container layer: every WritePayload kind emits the documented length type and quantity and its '
-                  'elements in order. Float payload bytes and host endianness are assumed (native copy on a little-endian host).',
+                  'elements in order; wrapper kinds (optional, result, enum, variant, value/reference wrapper) are composed of exactly the documented component '
+                  'encodings; table layout and entry framing. Float payload bytes and host endianness are assumed (native copy on a little-endian host).',
              ref='§4 C03'),
  'C04': dict(technique='exhaustive evaluation of Match over 256 prefixes; guard-to-error rules on symbolic paths of every ReadPayload',
              text='Integer layer complete: accepted prefix set per destination width/signedness, payload type per class, fixint decode. Container layer: each '
                   'documented validation (exact fixed lengths, byte-length multiples, member counts, logical-buffer capacity, variant index range, handle '
-                  'type) is present with its documented error category and dominates every element read; no narrowing hides part of a length from the guard.',
+                  'type) is present with its documented error category and dominates every element read; no narrowing hides part of a length from the guard; '
+                  'wrapper decoders use the documented component encodings; Ensure of the buffer and bounded readers is exact and overflow-safe (ReadLimitReached).',
              ref='§4 C04'),
  'C05': dict(technique='role specification of every reader primitive (symbolic effect summaries) + status discipline + skip/padding rules',
              text='Compositional: every reader primitive of the five library readers fails when asked for more than remains (stream/fd behaviour modelled), '
@@ -48,10 +50,11 @@ CLAIMS = {
                   'decoded inside a frame of exactly the declared size with the padding status returned, id dispatch independent of order, inner errors '
                   'propagate (status discipline).',
              ref='§4 C08'),
- 'C11': dict(technique='reset/overwrite/coverage rule on the successful symbolic paths of every ReadPayload',
+ 'C11': dict(technique='reset/overwrite/coverage rule on every successful symbolic path of every ReadPayload; abstract-state exploration of the re-seating operations',
              text='Every destination kind is reset or completely overwritten on every successful path (including empty-input paths): clear(), resize plus raw '
                   'read of exactly the resized range, full element coverage of fixed-size destinations, re-seating of Optional/Result/Variant, ClearEntries '
-                  'of all declared table entries, size member of logical buffers. Equality with the fresh-object result as values is not decided.',
+                  'of all declared table entries, size member of logical buffers; the re-seating operations themselves (Result/Optional assignment and clear, Variant '
+                  'Become/assignment, arities 1-4) are explored from every reachable prior state. Equality with the fresh-object result as values is not decided.',
              ref='§4 C11'),
  'C09': dict(technique='compiler-evaluated trait table over a generated type catalogue (static_asserts) + documented-layout compatibility relation; must-fail witnesses',
              text='clang evaluates IsFungible for every ordered pair of a generated catalogue (about 70 types over every type constructor the trait knows, '
@@ -66,13 +69,13 @@ CLAIMS = {
                   'combination are covered. Prepare-failure => nothing written is SD2 on SerializerCommon::Write.',
              ref='§3 E3, §4 C10'),
  'C12': dict(technique='exhaustive abstract-state exploration (abstract execution over flag cells and dead/live storage cells) of Variant/Union',
-             text='All reachable abstract states of a three-alternative Variant with non-trivially destructible alternatives, every constructor and public '
-                  'operation (copy/move/element/EmptyVariant assignment, Become for every index in [-2,N+1], Visit, get) from every state, a second Variant in '
+             text='All reachable abstract states of Variants of arity 1, 2, 3 and 4 with non-trivially destructible alternatives, every constructor and public '
+                  'operation (copy/move/element/converting/EmptyVariant assignment, converting construction from another instantiation, Become for every index in [-2,N+1], Visit, get) from every state, a second Variant in '
                   'every state and self-aliasing: lifetime legality, index <=> live alternative, construct-only-while-empty ordering, copy/const rules, '
                   'destructor, postconditions; plus tagged construction in Union::Become and member declaration order. Equality of copies as values is not decided.',
              ref='§4 C12'),
  'C13': dict(technique='exhaustive abstract-state exploration of Result/Optional; abstract evaluation of the comparison operators; switch/enumerator inventory',
-             text='Reachable-state fixpoint of Result<E,T> and Optional<T> (T non-trivially destructible) over all constructors/operations/argument choices '
+             text='Reachable-state fixpoint of Result<E,T> (also for an enum whose None is not zero) and Optional<T> (T non-trivially destructible) over all constructors/operations/argument choices '
                   '(value, every error code, second object in every reachable state incl. other instantiations, self): lifetime legality, accessor-visible state '
                   '<=> live storage, ordering, copy/move/const rules, postconditions; Entry is shown to add nothing to Optional; every instantiated Optional '
                   'comparison operator (also with Entry operands) is evaluated over all operand emptiness/order combinations against the total order; '
@@ -81,7 +84,7 @@ CLAIMS = {
  'C14': dict(technique='event-order and def-use rules on symbolic paths of the dispatch layer; narrowing scan; compile-fail witnesses',
              text='Dispatch table (recursion flattened, 1/2/5 bindings): every binding tried, the matching binding dispatched, otherwise InvalidInterfaceMethod '
                   'without touching the receiver; Helper::Dispatch: GetArgs, one Call, one SendReturn of its result; Call forwards pass-through then get<0..N-1>; '
-                  'sender/receiver primitives each perform exactly their transfer; Invoke sends its own selector; no selector is narrowed; static uniqueness and '
+                  'sender/receiver primitives of every instantiation (zero-argument methods included) each perform exactly their transfer; Invoke sends its own selector; no selector is narrowed; static uniqueness and '
                   'compatibility checks witnessed. Argument value equality reduces to C01.',
              ref='§4 C14'),
  'C15': dict(technique='event order/def-use on symbolic paths of the handle encoder; abstract execution of UniqueHandle over all ownership scenarios; witnesses',
@@ -105,7 +108,8 @@ CLAIMS = {
  'C18': dict(technique='term-domain evaluation of SipHash::Compute compared with reference SipHash-2-4 terms; compile-time (static_assert) wiring witnesses',
              text='Dataflow identity, for all inputs, keys and lengths, between the library code (helpers inlined, canonical hash-consed terms) and the '
                   'SipHash-2-4 construction written from the specification: initial state, block loop bounds, compression step, all 8 tail residues, '
-                  'finalisation, zero-extension of input bytes. The macro wiring (NOP_TABLE_NS, NOP_INTERFACE(32), NOP_METHOD), the name terminator '
+                  'finalisation, zero-extension of input bytes - for the BlockReader overloads and the generic-container overload (std::string, vector<char>, ...); '
+                  'additionally the whole function evaluated with concrete control flow for fixed lengths over symbolic bytes and keys. The macro wiring (NOP_TABLE_NS, NOP_INTERFACE(32), NOP_METHOD), the name terminator '
                   'and the four published key constants are tied down by static_asserts that clang evaluates against an independent constexpr reference.',
              ref='§4 C18'),
  'C19': dict(technique='static inventory of static-storage objects + structural rules (clang AST of patterns and instances)',
